@@ -357,7 +357,7 @@ def _unary_test(test, opv, op, ev):
     return res
 
 
-def check_dispatch(chk, ee, bs):
+def check_dispatch(chk, ee, bs, coverage=True):
     vmod = chk.repo.module('model')
     sch = schema_mod.load(vmod, 'BARE_SCRIPT_TYPES', 'C03.X')
     kinds = set(sch.unions.get('Expression', {}))
@@ -375,7 +375,8 @@ def check_dispatch(chk, ee, bs):
             chk.bad('C03.X', ee.mod, 'evaluate_expression', f"kind '{k}'", f"expression kind '{k}' of the schema's Expression union is not evaluated")
     for k in sorted(handled - kinds):
         chk.bad('C03.X', ee.mod, 'evaluate_expression', f"kind '{k}'", f"the evaluator dispatches on '{k}', which is not a member of the Expression union")
-    check_operator_coverage(chk, 'C03.X')
+    if coverage:
+        check_operator_coverage(chk, 'C03.X')
 
 
 def check_operator_coverage(chk, rule):
@@ -693,6 +694,47 @@ def check_lookup(chk, ee):
     raise Unrecognised('C03.B', 'function lookup chain (locals / globals / EXPRESSION_FUNCTIONS) not found', ee.mod.rel)
 
 
+def check_operator_table(chk, keep=None):
+    """C03.T: primary - the arithmetic operators and unary - / ! evaluated (E6e) on every ordered pair of sample operands of every value type against the language
+    definition; the shape read-back of the dispatch (type-atom table) is advisory once the evaluation decided.  keep: predicate on instance text (shared use)"""
+    from .. import evalsim
+    cache = getattr(chk, '_optable', None)
+    if cache is None:
+        try:
+            cache = chk._optable = evalsim.operator_table(chk.repo, 'C03.T')
+        except Unrecognised as exc:
+            chk.unrec('C03.T', f'operator table by evaluation: {exc.what}', exc.where)
+            cache = chk._optable = (0, [('undecided', exc.what)])
+    n, problems = cache
+    mod = chk.repo.module('runtime')
+    hard = [p for p in problems if p[0] == 'value']
+    soft = [p for p in problems if p[0] == 'undecided']
+    decided = n > 0 and not hard and not soft
+    if hard:
+        chk.bad('C03.T', mod, 'evaluate_expression', hard[0][1][:110], f'evaluation of the operators on {n} operand pairs: {hard[0][1]} ({len(hard)} pairs deviate)', node=mod.funcs.get('evaluate_expression'))
+    elif soft and n:
+        chk.unrec('C03.T', f'operator table by evaluation: {soft[0][1]} ({len(soft)} of {n} pairs undecided)', mod.rel)
+    elif decided:
+        chk.ok('C03.T', f'{n} evaluations: + - * / % ** on every ordered pair of 14 sample operands (null, boolean, int, float, zero, strings, datetime, date, array, object, function, '
+               f'regex) and unary - / ! give the value the language defines: numeric result (null for a zero divisor / complex result), concatenation with the stringified operand, '
+               f'normalised datetime + milliseconds, datetime difference in milliseconds, null for every other operand type', count=n)
+    from ..rt import EvalExpr
+    before = len(chk.instances)
+
+    def shape():
+        ee = EvalExpr(chk.repo, 'C03.T')
+        bs = ee.binary()
+        check_table(chk, ee, bs)
+        check_unary(chk, ee)
+    if decided:
+        chk.advisory('C03.T', shape)
+    else:
+        chk.guard('C03.T', shape)
+    if keep is not None:
+        chk.instances[before:] = [i for i in chk.instances[before:] if keep(i['instance']) or i['verdict'] != 'OK']
+    return decided
+
+
 def run(chk):
     chk.rule('C03.X', 'dispatch exhaustive w.r.t. the schema (expression kinds, binary operators)', floor=8)
     chk.rule('C03.T', 'operator action table over 13x13 host type atoms equals the language definition', floor=6 * 169)
@@ -702,12 +744,14 @@ def run(chk):
     chk.rule('C03.B', 'expression built-ins alias the library functions; lookup order', floor=40)
     chk.assumptions += ['host + - * / % ** on int/float are the numeric operations; value_string / value_boolean / value_compare are checked by C13 / C11',
                         'models are schema-valid']
-    ee = EvalExpr(chk.repo, 'C03.X')
-    bs = chk.guard('C03.X', ee.binary)
-    if bs is not None:
-        chk.guard('C03.X', check_dispatch, chk, ee, bs)
-        chk.guard('C03.T', check_table, chk, ee, bs)
-    chk.guard('C03.T', check_unary, chk, ee)
+    decided = check_operator_table(chk)
+    chk.floors['C03.T'] = 1000
+
+    def dispatch_shape():
+        ee = EvalExpr(chk.repo, 'C03.X')
+        check_dispatch(chk, ee, None, coverage=False)
+    chk.guard('C03.X', check_operator_coverage, chk, 'C03.X')
+    (chk.advisory if decided else chk.guard)('C03.X', dispatch_shape)
     from .. import evalsim
     what = {'lazy': '&& and || return the left value or evaluate the right operand, decided by value_boolean(left)', 'lazy-if': 'if() evaluates the condition once and only the selected branch',
             'args': 'arguments evaluated once, left to right, before the call', 'lookup': 'variables: keywords, locals (membership), globals; functions: locals, globals, built-ins under the flag'}
